@@ -29,6 +29,8 @@ type vfC15Case struct {
 	Delays   []int // per group: 0 none, 1 Gosched, 2 sleep 50us, 3 sleep 500us
 	Procs    int   // GOMAXPROCS during the run
 	ReadSlow bool  // slow reader (small chunks)
+	Stall    int   // the consumer sleeps this many ms in group StallAt (lets > 1000 groups queue up behind it)
+	StallAt  int
 }
 
 type vfGroup struct {
@@ -114,6 +116,9 @@ func vfC15eval(c *vfC15Case, st map[string]int) error {
 			cc := ch
 			cc.ObjectData = append([]byte{}, ch.ObjectData...)
 			g.children = append(g.children, cc)
+		}
+		if c.Stall > 0 && gi == c.StallAt {
+			time.Sleep(time.Duration(c.Stall) * time.Millisecond)
 		}
 		if len(c.Delays) > 0 {
 			switch c.Delays[gi%len(c.Delays)] {
@@ -246,7 +251,7 @@ func btoi(b bool) int {
 func TestVfC15(t *testing.T) {
 	run := vfh.Begin("C15", "traversal")
 	defer run.End(t)
-	run.Require("ignore:none", "ignore:some", "delayed", "procs:1", "trailing-group", "children>5000")
+	run.Require("ignore:none", "ignore:some", "delayed", "procs:1", "trailing-group", "children>5000", "groups>1000-behind-stalled-consumer")
 	opts := cargen.DefaultOpts()
 	rapid.Check(t, func(rt *rapid.T) {
 		c := &vfC15Case{Spec: cargen.Gen(rt, opts)}
@@ -270,9 +275,21 @@ func TestVfC15(t *testing.T) {
 				c.Delays = []int{3, 3, 2}
 			}
 		}
+		if rapid.IntRange(0, vfh.Pick(24, 40)).Draw(rt, "manyGroups") == 0 {
+			// more groups than the accumulator's flush queue holds (1000) behind a consumer that stalls once
+			c.Spec.BulkBlocks, c.Spec.BulkTxPerBlock = rapid.SampledFrom([]int{1001, 1003, 1100, 1500, 2500}).Draw(rt, "manyBlocks"), rapid.IntRange(0, 1).Draw(rt, "manyTx")
+			c.Stall, c.StallAt = rapid.SampledFrom([]int{60, 150}).Draw(rt, "stall"), rapid.SampledFrom([]int{0, 1, 7}).Draw(rt, "stallAt")
+			c.ReadSlow = false
+			if len(c.Delays) > 2 {
+				c.Delays = c.Delays[:2]
+			}
+		}
 		run.SetLast(c)
 		st := map[string]int{}
 		err, panicked := vfh.Catch(func() error { return vfC15eval(c, st) })
+		if c.Stall > 0 && st["groups"] > 1001 {
+			st["groups>1000-behind-stalled-consumer"]++
+		}
 		cls := []string{fmt.Sprintf("procs:%d", c.Procs)}
 		if len(c.Ignore) == 0 {
 			cls = append(cls, "ignore:none")
